@@ -40,6 +40,39 @@ PLAN = {
  'C15_m2': [('c15', 'edit_distance_join')],
  'C17_m1': [('c17', 'comments|shape')],
  'C17_m2': [('c17', 'comments')],
+ # round 2
+ 'C01_r2m1': [('c01', 'E1-K'), ('c04', 'E1-K')],
+ 'C01_r2m2': [('c01', 'api-jaccard_join-k2'), ('c08', 'jaccard_join-2x2-o1'), ('c11', 'api-jaccard_join')],
+ 'C02_r2m1': [('c02', 'api-jaccard')],
+ 'C02_r2m2': [('c02', 'core-OC')],
+ 'C03_r2m1': [('c03', 'join-2x1-unpadded')],
+ 'C03_r2m2': [('c03', 'join-1x1-short|two-letters')],
+ 'C04_r2m1': [('c04', 'ed-pair-two-letters-PositionFilter|ed-pair-PositionFilter')],
+ 'C04_r2m2': [('c06', 'overlap-tables-core'), ('c04', 'tables-OverlapFilter')],
+ 'C05_r2m1': [('c05', 'uncached-3rows|uncached-ops')],
+ 'C05_r2m2': [('c05', 'split-projection|uncached-ops')],
+ 'C06_r2m1': [('c06', 'overlap-tables-core')],
+ 'C06_r2m2': [('c06', 'candset-SizeFilter|candset-PrefixFilter')],
+ 'C07_r2m1': [('c01', 'E1-K'), ('c04', 'E1-K')],
+ 'C07_r2m2': [('c03', 'two-letters'), ('c07', 'ed-pipeline')],
+ 'C08_r2m1': [('c06', 'overlap-pair'), ('c08', 'pair-OverlapFilter')],
+ 'C08_r2m2': [('c08', 'jaccard_join-2x2-o1|SizeFilter-2x2-o1')],
+ 'C09_r2m1': [('c09', 'api-PrefixFilter')],
+ 'C09_r2m2': [('c09', 'api-jaccard_join|api-PositionFilter')],
+ 'C10_r2m1': [('c10', 'ed-join-id-njobs')],
+ 'C10_r2m2': [('c01', 'T1'), ('c10', 'T1-token-ordering')],
+ 'C11_r2m1': [('c11', 'api-jaccard_join|api-PrefixFilter')],
+ 'C11_r2m2': [('c11', 'api-dice_join')],
+ 'C12_r2m1': [('c12', 'step-dice_join')],
+ 'C12_r2m2': [('c12', 'step-jaccard_join')],
+ 'C13_r2m1': [('c13', 'transpose-jaccard'), ('c01', 'core-JACCARD')],
+ 'C13_r2m2': [('c13', 'transpose-overlap'), ('c02', 'api-overlap')],
+ 'C14_r2m1': [('c14', 'ed-size-tables')],
+ 'C14_r2m2': [('c14', 'ed-position-subset')],
+ 'C15_r2m1': [('c15', 'filter_candset')],
+ 'C15_r2m2': [('c15', 'ctor:SizeFilter')],
+ 'C17_r2m1': [('c17', 'comments')],
+ 'C17_r2m2': [('c17', 'comments')],
 }
 
 
